@@ -21,7 +21,7 @@ pub struct Obs {
     pub deviations_possible: bool,
 }
 
-const SIZES: [usize; 8] = [0, 1, 1199, 1200, 1201, 65_535, (1 << 20) + 3, 3 << 20];
+const SIZES: [usize; 11] = [0, 1, 1199, 1200, 1201, 8191, 8193, 65_535, 131_073, (1 << 20) + 3, 3 << 20];
 
 /// The RPCs of a unit: (direction a->b?, spec, gate name)
 fn specs(unit: &Value) -> Vec<(bool, RpcSpec, Option<String>)> {
